@@ -76,8 +76,14 @@ def exclusion_for(rng, tree, base_placeholder="@BASE@"):
     pats = []
     for _ in range(rng.randint(1, 2)):
         nme = rng.choice(names)
-        shape = rng.randrange(5)
-        if shape == 0:
+        shape = rng.randrange(8)
+        if shape == 5:
+            pats.append("*/" + nme + "/")              # ends in a separator: no path string ends like that - nothing is excluded
+        elif shape == 6:
+            pats.append("*/" + nme + "/*")             # everything BELOW the directory, not the directory itself
+        elif shape == 7:
+            pats.append("*" + nme[:-1])                # the name without its last character: only a path ending exactly there
+        elif shape == 0:
             pats.append("*" + nme)                     # *text : path ends with name
         elif shape == 1:
             pats.append("*" + nme + "*")               # *text*
